@@ -1465,7 +1465,18 @@ void XMLScanner::scanXMLDecl(const DeclTypes type)
                 }
             }
             else if (XMLString::startsWith(rawValue, XMLUni::fgVersion1)) {
-                if (type == Decl_XML) {
+                // VersionNum ::= '1.' [0-9]+
+                const XMLCh* digits = rawValue + 2;
+                bool validNum = (*digits != chNull);
+                for (; *digits; digits++) {
+                    if (*digits < chDigit_0 || *digits > chDigit_9) {
+                        validNum = false;
+                        break;
+                    }
+                }
+                if (!validNum)
+                    emitError(XMLErrs::UnsupportedXMLVersion, rawValue);
+                else if (type == Decl_XML) {
                     fXMLVersion = XMLReader::XMLV1_0;
                     fReaderMgr.setXMLVersion(XMLReader::XMLV1_0);
                 }
